@@ -905,6 +905,8 @@ class Interp:
     def eval_Subscript(self, e, env):
         base = self.eval(e.value, env)
         idx = self.eval_index(e.slice, env)
+        if isinstance(base, (list, tuple)) and not hasattr(base, "_fields") and isinstance(idx, int) and not isinstance(idx, bool) and not (-len(base) <= idx < len(base)):
+            raise PathRaises(f"IndexError: index {idx} of a sequence of {len(base)}", e)
         if isinstance(base, (list, tuple)) and isinstance(idx, int) and base and isinstance(base[idx], Op) and base[idx].op == "forall":
             elem, desc, body = base[idx].args
             if desc[0] == "range" and idx == -1:
